@@ -78,14 +78,19 @@ def candidates(path):
 def gen(per_file, seed):
     rnd = random.Random(seed)
     muts = []
+    done = set()
+    for prev in sorted(os.listdir(os.path.join(VERIF, "qa"))):
+        if prev.startswith("mutation_tested") and prev.endswith(".json"):
+            for m in json.load(open(os.path.join(VERIF, "qa", prev))):
+                done.add((m["file"], m["line"], m["col"], m["old"], m["new"]))
     for f in FILES:
         if not os.path.exists(os.path.join(REPO, f)):
             continue
-        c = candidates(f)
+        c = [m for m in candidates(f) if (m["file"], m["line"], m["col"], m["old"], m["new"]) not in done]
         rnd.shuffle(c)
         muts += c[:per_file]
     for i, m in enumerate(muts):
-        m["id"] = "m%04d" % i
+        m["id"] = "s%dm%04d" % (seed, i)
     os.makedirs(OUT, exist_ok=True)
     json.dump(muts, open(os.path.join(OUT, "mutants.json"), "w"), indent=1)
     print(len(muts), "mutants")
